@@ -1,6 +1,7 @@
 package main
 
 import (
+	"encoding/json"
 	"flag"
 	"fmt"
 	"os"
@@ -43,6 +44,10 @@ func main() {
 		os.Exit(3)
 	}
 	e.verbose = *verbose
+	e.hints = map[string]string{}
+	if b, err := os.ReadFile("/verif/baseline/strategies.json"); err == nil {
+		json.Unmarshal(b, &e.hints)
+	}
 	e.jobs = runtime.NumCPU()
 	e.timeout = *timeout
 	if e.timeout == 0 {
@@ -123,6 +128,7 @@ func (e *Engine) genFunc(name string) (*FnCtx, error) {
 	if err := fc.generate(); err != nil {
 		return fc, err
 	}
+	fc.checkFrame()
 	fc.finalize()
 	return fc, nil
 }
